@@ -482,7 +482,7 @@ func jsonTypes() []*MsgType {
 	return out
 }
 
-const ruleC18 = "case = (message type of the corpus for gogo / Google v1 (legacy) / Google v2, plain and fast-marshal; value incl. enums, 64-bit integers, bytes, maps, oneofs, well-known types as fields and - Value (every kind incl. null), Struct, ListValue, Timestamp, wrappers of Google v2 and gogo - as top-level messages; the 2^3 marshal option combinations, each adapter call with its own options only or (1 in 2) with all five options in one of the 120 orders (1 in 2 of those preceded by the same five options set to the opposite values: the later occurrence is in effect); indent in {\"\", \" \", \"  \", \"\\t\", \" \\t\"}; JSON with/without an injected unknown key x AllowUnknownFields (also for documents nested 99..400 levels deep through recursive types); JSON with/without a required field - the message's own or one of a child, incl. proto2 children of a proto3 message - x AllowPartialMessages (Google v2); 1 in 3 right after a MarshalJSON call that the runtime refuses (out-of-range Timestamp / Duration, also as a later list element; required field missing in a child)); oracle: json.Valid, adapter round trip == original, the OWNING runtime's JSON decoder accepts the output and decodes the original, structural probes for every option, nil => (nil, nil) (untyped nil and typed nil pointers of every corpus package and of the well-known types that implement json.Marshaler themselves), unmarshal into nil => error (the same nil values x {no option, one option, all options} x four documents); non-trivial = message with >= 1 enum / 64-bit / bytes / map field set and >= 1 option set; distinct by case content"
+const ruleC18 = "case = (message type of the corpus for gogo / Google v1 (legacy) / Google v2, plain and fast-marshal; value incl. enums, 64-bit integers, bytes, maps, oneofs, well-known types as fields and - Value (every kind incl. null, negative and zero numbers), Struct, ListValue, Timestamp, Duration, wrappers (negative, minimal, large values) of Google v2 and gogo - as top-level messages, so that a document starts with each character a JSON value can start with; the 2^3 marshal option combinations, each adapter call with its own options only or (1 in 2) with all five options in one of the 120 orders (1 in 2 of those preceded by the same five options set to the opposite values: the later occurrence is in effect); indent in {\"\", \" \", \"  \", \"\\t\", \" \\t\"}; JSON with/without an injected unknown key x AllowUnknownFields (also for documents nested 99..400 levels deep through recursive types); JSON with/without a required field - the message's own or one of a child, incl. proto2 children of a proto3 message - x AllowPartialMessages (Google v2); 1 in 3 right after a MarshalJSON call that the runtime refuses (out-of-range Timestamp / Duration, also as a later list element; required field missing in a child)); oracle: json.Valid, adapter round trip == original, the OWNING runtime's JSON decoder accepts the output and decodes the original, structural probes for every option, nil => (nil, nil) (untyped nil and typed nil pointers of every corpus package and of the well-known types that implement json.Marshaler themselves), unmarshal into nil => error (the same nil values x {no option, one option, all options} x four documents); non-trivial = message with >= 1 enum / 64-bit / bytes / map field set and >= 1 option set; distinct by case content"
 
 // ---- well-known types as TOP-LEVEL messages (their JSON form is not an object: null, number, string, array) ----
 
@@ -516,9 +516,27 @@ var wktJSONValues = map[string]func() any{
 	"gv2/Int64Value":     func() any { return wrapperspb.Int64(-9007199254740993) },
 	"gv2/BoolValue":      func() any { return wrapperspb.Bool(false) },
 	"gv2/BytesValue":     func() any { return wrapperspb.Bytes([]byte{0, 0xff}) },
-	"gogo/Value-null":    func() any { return &gogotypes.Value{Kind: &gogotypes.Value_NullValue{}} },
-	"gogo/Value-number":  func() any { return &gogotypes.Value{Kind: &gogotypes.Value_NumberValue{NumberValue: 1.5}} },
-	"gogo/Value-string":  func() any { return &gogotypes.Value{Kind: &gogotypes.Value_StringValue{StringValue: "x"}} },
+	// documents whose FIRST byte is each of the characters a JSON value can start with: - 0-9 " t f n [ {
+	"gv2/Value-negative":      func() any { return structpb.NewNumberValue(-1.5) },
+	"gv2/Value-zero":          func() any { return structpb.NewNumberValue(0) },
+	"gv2/Value-tiny-negative": func() any { return structpb.NewNumberValue(-1e-300) },
+	"gv2/Value-false":         func() any { return structpb.NewBoolValue(false) },
+	"gv2/Int32Value-negative": func() any { return wrapperspb.Int32(-7) },
+	"gv2/Int32Value-min":      func() any { return wrapperspb.Int32(-2147483648) },
+	"gv2/UInt32Value":         func() any { return wrapperspb.UInt32(4000000000) },
+	"gv2/DoubleValue-neg":     func() any { return wrapperspb.Double(-0.25) },
+	"gv2/FloatValue-neg":      func() any { return wrapperspb.Float(-2.5) },
+	"gv2/DoubleValue-big":     func() any { return wrapperspb.Double(9e99) },
+	"gv2/BoolValue-true":      func() any { return wrapperspb.Bool(true) },
+	"gv2/Duration-negative":   func() any { return &durationpbAlias{Seconds: -3, Nanos: -500} },
+	"gogo/Value-negative":     func() any { return &gogotypes.Value{Kind: &gogotypes.Value_NumberValue{NumberValue: -7}} },
+	"gogo/Int32Value-neg":     func() any { return &gogotypes.Int32Value{Value: -7} },
+	"gogo/DoubleValue-neg":    func() any { return &gogotypes.DoubleValue{Value: -2.5} },
+	"gogo/FloatValue-neg":     func() any { return &gogotypes.FloatValue{Value: -0.5} },
+	"gogo/BoolValue":          func() any { return &gogotypes.BoolValue{Value: true} },
+	"gogo/Value-null":         func() any { return &gogotypes.Value{Kind: &gogotypes.Value_NullValue{}} },
+	"gogo/Value-number":       func() any { return &gogotypes.Value{Kind: &gogotypes.Value_NumberValue{NumberValue: 1.5}} },
+	"gogo/Value-string":       func() any { return &gogotypes.Value{Kind: &gogotypes.Value_StringValue{StringValue: "x"}} },
 	"gogo/Struct": func() any {
 		return &gogotypes.Struct{Fields: map[string]*gogotypes.Value{"a": {Kind: &gogotypes.Value_NullValue{}}, "b": {Kind: &gogotypes.Value_BoolValue{BoolValue: true}}}}
 	},
